@@ -59,7 +59,7 @@ func init() {
 	outA := "frames longer than N_max with arbitrary content (the windowed templates reach further but are not complete); declared remaining lengths beyond stream length + 2"
 
 	meta("C01", "model_checking",
-		"For every shape an abstract packet with symbolic values is built through the public constructors and setters, written with WriteTo into a contiguous sink, read back with ReadPacket, and every public accessor of the decoded packet is compared (one solver query per observation) with the value that was set; the decoded packet is written again and compared byte for byte. All library code (setters, two-pass encoders, ReadPacket, property loop, wire types) is executed symbolically from go/ssa.",
+		"For every shape an abstract packet with symbolic values is built through the public constructors and setters, written with WriteTo into a contiguous sink, read back with ReadPacket, and every public accessor of the decoded packet is compared (one solver query per observation) with the value that was set; the decoded packet is written again and compared byte for byte; a CONNECT is also built with a will message that replaces one attached earlier (symbolic QoS 0..3 and retain flag of the first). All library code (setters, two-pass encoders, ReadPacket, property loop, wire types) is executed symbolically from go/ssa.",
 		sQuick, sThor, outS)
 	meta("C02", "model_checking",
 		"As C01, but the frame WriteTo produced is judged by a strict reference decoder written in the harness from the MQTT v5.0 specification text (own constants, own variable-byte-integer code, shares nothing with the library) which is itself executed symbolically: exactly one frame, minimal and exact remaining length, reserved flag bits, field order, admissible property identifiers with their wire types at most once, and the decoded values equal the values set (absent property = zero value).",
@@ -69,8 +69,8 @@ func init() {
 		"Two job families. S-mode: frames come from a reference encoder written from the specification (property orders the library never emits: ascending, descending, rotated; explicit zero-valued properties; PUBACK-family frames of remaining length 2 and 3; DISCONNECT/AUTH of length 0/1; DISCONNECT properties; multi-byte property lengths; boundary string lengths) with symbolic values; ReadPacket must accept and every accessor must equal the value the frame carries. A-mode: the body is N unconstrained symbolic bytes; the library decoder and the reference decoder are both executed symbolically and whenever the reference verdict is VALID the library must accept and agree on every accessor.",
 		sQuick+"; "+aQuick+" (A-mode classifier: one byte less, CONNECT 10)", sThor+"; "+aThor, outS+"; "+outA+"; frames the reference decoder classifies as carrying a value-level protocol error (nothing is asserted about them)")
 	meta("C04", "model_checking",
-		"UnmarshalBinary of all 16 types and ReadPacket are executed on fully symbolic bytes; every slice/index/make bounds check of the compiled code is a fork whose failing side is asked of the solver, so a reachable runtime panic yields a concrete input. T-mode: valid frames with a 1-2 byte unconstrained window at every offset and every prefix of valid frames (remaining length kept and adjusted). ReadPacket must return exactly one of packet and error.",
-		aQuick+"; windows of 1 byte (2 bytes for types other than CONNECT/CONNACK/PUBLISH) over small valid frames of every type; all prefixes", aThor+"; windows of 1 and 2 bytes", outA)
+		"UnmarshalBinary of all 16 types and ReadPacket are executed on fully symbolic bytes; every slice/index/make bounds check of the compiled code is a fork whose failing side is asked of the solver, so a reachable runtime panic yields a concrete input. T-mode: valid frames with a 1-2 byte unconstrained window at every offset and every prefix of valid frames (remaining length kept and adjusted). ReadPacket must return exactly one of packet and error. Reuse: N arbitrary bytes are decoded with UnmarshalBinary into a packet value that has already decoded a full valid body (every mapped property, non-empty strings) - state kept from the first decode must not make the second panic.",
+		aQuick+"; second decode into a used packet 0..6 bytes; windows of 1 byte (2 bytes for types other than CONNECT/CONNACK/PUBLISH) over small valid frames of every type; all prefixes", aThor+"; windows of 1 and 2 bytes", outA)
 	meta("C05", "model_checking",
 		"The explorations of C04 with the engine's step meter and allocation meter as unwinding assertions: every path must finish within 3000*(N+4) library SSA instructions and 64*(N+4)+4096 bytes (+ the declared remaining length for ReadPacket); there is no silent unwinding limit, exhausting a budget is the violation. Returned (and half-built) packets must not hold more list elements than the frame has bytes. Extra families: SUBSCRIBE/UNSUBSCRIBE/SUBACK/UNSUBACK payload sections of N arbitrary bytes; valid frames with 8, 48 and 96 user properties / list elements (will user properties included) decoded under the same linear budgets, where quadratic decoding shows (confirmed natively through runtime.MemStats).",
 		aQuick+"; list payloads of 0..7 bytes", aThor+"; list payloads of 0..10 bytes", outA+"; 'proportional' is checked as these fixed linear budgets (a quadratic algorithm with a small constant would pass at these sizes)")
@@ -98,7 +98,7 @@ func init() {
 		"all setters x 2 pre-states x string length {0,1}; all pairs of setters per type (CONNECT/CONNACK: a third of the ordered pairs plus all repeats)", "all ordered pairs and k1,k2,k1 triples", "histories longer than 3; string arguments longer than 1 byte")
 	meta("C13", "other",
 		"Solver-based symbolic execution does not explore goroutine interleavings. What is decided on the real code is the premise of the lemma 'operations that perform no write to memory reachable by another goroutine cannot race': after the packet exists, every object allocated so far and all package-level variables are marked shared; WriteTo, String, Dump, WellFormed, all accessors and a ReadPacket on a private stream are executed on all symbolic paths and every Store, MapUpdate, in-place append and copy into a shared object is counted by the interpreter; the count must be 0 on every feasible path (infeasible paths are pruned by the solver). sync.Pool is modelled (Get is a decision, memory that was Put must not be used afterwards). Short frames of every type are read under the monitor (writes by a reader the library calls back count). With no shared writes every interleaving of such calls is race-free and each WriteTo computes the sequential result. Findings are confirmed natively by running the operations from 8 goroutines in a -race build.",
-		"C01 shapes without boundary-length fields, built and decoded packets; a will message shared between a CONNECT and direct use", "same plus scalar-presence forking", outS+"; interleavings are not enumerated (sufficient condition only); synchronisation primitives are not modelled (a tree that introduces them is reported as inconclusive, not as a violation)")
+		"C01 shapes without boundary-length fields, built and decoded packets; a will message shared between a CONNECT and direct use, also changed through its own setters (payload, topic, flags, properties) after SetWill and before sharing; a SUBSCRIBE with any 32-bit subscription identifier, zero included", "same plus scalar-presence forking", outS+"; interleavings are not enumerated (sufficient condition only); synchronisation primitives are not modelled (a tree that introduces them is reported as inconclusive, not as a violation)")
 	meta("C14", "model_checking",
 		"Aliasing: a packet is decoded (UnmarshalBinary of all 16 types on arbitrary bytes and on valid bodies; ReadPacket), all accessors are snapshotted, then every byte of the input slice is overwritten with a fresh symbolic byte and the solver is asked whether any accessor can change. Interference: two packets are decoded from independent symbolic frames; every setter, WriteTo, String and Dump run on the first; the second's accessors must be unchanged, no package-level object may be written (interpreter monitor), and decoding the first frame again must give the first result. Further: decoding into packets that already hold data (NewConnect(), slices shared through setters, a will kept from an earlier decode), a PUBLISH kept while N arbitrary bytes are decoded as any type, and a packet kept while the next frame of the same stream is read.",
 		aQuick+" (two bytes less); "+sQuick+" (strings up to 128 bytes)", aThor+"; "+sThor, outS+"; "+outA)
@@ -125,6 +125,7 @@ func init() {
 	indirectHarness["ZZ_C11_proc"] = Indirect{"ZZ_C11_proc", "multiproc"}
 	indirectHarness["ZZ_C13_ro"] = Indirect{"ZZ_C13_race", "race"}
 	indirectHarness["ZZ_C13_will"] = Indirect{"ZZ_C13_will_race", "race"}
+	indirectHarness["ZZ_C13_subid"] = Indirect{"ZZ_C13_subid_race", "race"}
 	indirectHarness["ZZ_C13_willmod"] = Indirect{"ZZ_C13_willmod_race", "race"}
 	indirectHarness["ZZ_C13_read"] = Indirect{"ZZ_C13_read_race", "race"}
 }
@@ -551,6 +552,7 @@ func jobsFor(prop, tier string) []*Job {
 		for _, wm := range []int{0, 1, 63} {
 			add("will", "ZZ_C13_will", []string{"will"}, Sh{Typ: 1, Slen: 1, NUser: 1, Will: 1 | wm<<1, Nz: 1}.Args()...)
 		}
+		add("subid", "ZZ_C13_subid", []string{"subid"}, 0)
 		for mode := 1; mode <= 4; mode++ {
 			add("willmod", "ZZ_C13_willmod", []string{"willmod"}, append([]int{mode}, Sh{Typ: 1, Slen: 1, NUser: 1, Will: 1 | 63<<1, Nz: 1}.Args()...)...)
 		}
